@@ -233,6 +233,37 @@ def summarize(body, blocks, end, env0=None, named_only=True, mk=False):
     return p
 
 
+def arg_aliases(body):
+    """{local: ('loc', a)} for single-definition locals that are plain copies (through further such copies) of an argument that is
+    never re-bound: the parameters of a helper spliced into its caller, `let bytes = bytes;` ...  Paths that start at a loop head
+    would otherwise see them as unknowns."""
+    out = {}
+    for i, l in enumerate(body.locals):
+        if i <= body.arg_count:
+            continue
+        j, hops = i, 0
+        while hops < 6:
+            ds = body.defs.get(j, [])
+            if len(ds) != 1 or ds[0][2] != 'assign':
+                break
+            rv = ds[0][3]['rv']
+            if 'use' in rv:
+                pl = op_place(rv['use'])
+                if pl is None or pl['p']:
+                    break
+            elif 'ref' in rv and isinstance(rv.get('place'), dict) and rv['place']['p'] == ['deref'] and body.locals[rv['place']['l']]['ty'].startswith('&'):
+                pl = rv['place']          # a reborrow `&*r` of a reference is the reference
+            else:
+                break
+            j = pl['l']
+            hops += 1
+            if 1 <= j <= body.arg_count:
+                if not body.defs.get(j):
+                    out[i] = ('loc', j)
+                break
+    return out
+
+
 def region_paths(body, start, stop=(), env0=None, limit=MAX_PATHS):
     return [summarize(body, blks, end, env0) for blks, end in enumerate_block_paths(body, start, stop, True, limit)]
 
